@@ -54,6 +54,12 @@ func genStyDoc(rc *RC) []byte {
 	for i := 0; i < n; i++ {
 		b = append(b, pieces[ch.Int("workload", len(pieces))]...)
 	}
+	if ch.Chance("workload", 1, 10) {
+		// what editors and some clients put in front of a text: a byte order mark, other invisible characters, or only
+		// the first bytes of one - followed by a construct that only counts at the start of a line
+		pre := []string{"\xef\xbb\xbf", "\xef\xbb", "\xef", "\xe2\x80\x8b", "\xe2\x80\x8e", "\xc2\xa0", "\xff\xfe"}[ch.Int("workload", 7)]
+		b = append([]byte(pre+[]string{"> ", "```\n", "*", "", ">"}[ch.Int("workload", 5)]), b...)
+	}
 	if ch.Chance("workload", 1, 6) {
 		// the document ends inside a rune, possibly right after a quote marker
 		b = append(b, []string{">", "> ", "\n>", "", ">>"}[ch.Int("workload", 5)]...)
